@@ -3,8 +3,8 @@ SPEC = {
     'harness': 'hC17',
     'coq_dir': 'C17',
     'claimed': False,
-    'theorems': ['C17_created_group_chained', 'C17_created_group_checks_partial', 'C17_created_group_checks_refuted',
-                 'C17_same_header_same_content', 'C17_tamper_detected_partial', 'C17_tamper_detected_refuted',
+    'theorems': ['C17_created_group_chained', 'C17_created_group_checks_partial', 'C17_created_fee_sufficient', 'C17_created_group_passes_partial', 'C17_created_group_checks_refuted',
+                 'C17_same_header_same_content', 'C17_member_first_detected', 'C17_tamper_detected_partial', 'C17_tamper_detected_refuted',
                  'C17_fee_rules', 'C17_fee_sum_exact', 'C17_decode_txs_encode', 'C17_tx_path_equiv',
                  'C17_rebuilt_group_chained'],
     'allowed_axioms': [],
@@ -18,11 +18,15 @@ SPEC = {
             '(chain id, height incl. -1, ForkTxChainIDStrict / ForkTxGroupPara / ForkBlockCheck on or off, minimum fee rate 0 / '
             'creation rate / 3x, fee ceiling) with the observables Transactions.Check error class, Transactions.Tx().Check and '
             'TransactionCache.Check (GetTxGroup path), Transactions.CheckSign (also via TransactionCache), per-member driver verdict. '
-            'Groups of every size 2..20 (quick: 40-120 sampled entries each; sizes 2 and 3 and the thorough tier: every alteration), '
-            'parachain mixes (main only, one para, para+main, two paras, odd titles), rates 0/1/1e5/2.5e5/2^40, payload sizes around the '
-            '1000-byte fee step, head fee at required-1/required/required+1 and around the ceiling, other members with fee +-1, sizes 0, 1, '
-            '21, 22, oversize members; unrestricted stream: stale Next on the last input, high-S / trailing-byte signatures, ty bits '
-            'outside the crypto-id mask. non-trivial = case with at least one altered entry or a creation error; distinct = distinct case terms',
+            'Groups of every size 2..20; per group a fixed core (unaltered under all 9 environments; swaps first/second, last two, first/last, '
+            'two middle pairs; drop/dup/insert/substitute at first, middle and last position; append; truncate; reverse; the count-fixing and '
+            'RebuiltGroup follow-ups at one position; GroupCount 0/21/n+1; head fee required-1/required/required+1/0/-1/ceiling/int64 edges at two rates; '
+            'fee +-1 on other members; chain id under the strict fork) plus a sampled part (quick: 40-120 of the per-member field, signature and '
+            'structural alterations; sizes 2 and 3 and the thorough tier: all of them); parachain mixes (main only, one para, para+main, two paras, '
+            'odd titles), rates 0/1/1e5/2.5e5/2^40, payload sizes around the 1000-byte fee step, sizes 0, 1, 21, 22, oversize members; '
+            'unrestricted stream: stale Next on the last input, high-S / trailing-byte signatures, ty bits outside the crypto-id mask. '
+            'entries are independent; a case reports its first spec violation outside the findings, else the first finding, else the first disagreement. '
+            'non-trivial = case with at least one altered entry or a creation error; distinct = distinct case terms',
     'trusted_base': [
         'SHA-256 is a Section function assumed injective in C17_same_header_same_content / C17_tamper_detected_partial; in the '
         'correspondence check it is a finite table of digests that the harness computed with crypto/sha256 over its own encoding of '
@@ -42,8 +46,9 @@ SPEC = {
         'a member signed again by Transaction.Sign with another key is an issued signature (the ideal functionality lets anyone sign); '
         'the spec oracle counts it as authentic',
         'fee rates below 2^50 in the spec oracle (no int64 wrap-around; the model itself wraps like Go)',
-        'C17_created_group_checks_partial takes the fee sufficiency of the signed group as a hypothesis (decision rule): it depends on the '
-        'signature sizes (300 bytes are budgeted at creation) and on the rate Check is called with',
+        'C17_created_group_checks_partial takes the fee sufficiency of the signed group as a hypothesis (decision rule); '
+        'C17_created_fee_sufficient / C17_created_group_passes_partial derive it for unsigned inputs, Check called with the creation rate, '
+        'signature fields of at most 300 encoded bytes (the budget CreateTxGroup uses), a constant digest length and 101*rate*n < 2^63',
     ],
     'manifest': {
         'level_text': 'partial: structure clauses (reorder/drop/add/substitute/any hashed field) proved unbounded for the model under SHA-256 '
